@@ -81,6 +81,17 @@ let () =
       print_endline (id ^ " U:" ^ show_unpack (unpack (zl_of_hex f) (zl_of_hex d) (z_of_int (int_of_string pos - 1))))
     | id :: "S" :: f :: _ ->
       print_endline (id ^ " S:" ^ show_size (packsize (zl_of_hex f)))
+    | id :: "Q" :: v :: rest ->
+      (match parse_value v with
+       | VStr str ->
+         let tab = match rest with t :: _ when t <> "-" -> List.map z_of_hex (String.split_on_char ',' t) | _ -> [] in
+         let q = quote (is_print_tab tab) str in
+         (match lua_string_literal q with
+          | Some r -> print_endline (id ^ " Q:" ^ hex_of_zl q ^ " L:K V:" ^ show_value (VStr r))
+          | None -> print_endline (id ^ " Q:" ^ hex_of_zl q ^ " L:C V:-"))
+       | VInt n -> print_endline (id ^ " Q:" ^ hex_of_zl (format_int n) ^ " L:K V:" ^
+                                  (match parse_int (format_int n) with Some m -> "i" ^ dec_of_z m | None -> "n"))
+       | _ -> print_endline (id ^ " unmodelled"))
     | id :: "T" :: v :: _ ->
       (match parse_value v with
        | VInt n ->
